@@ -212,3 +212,19 @@ pub const ZC_HOLDSFAKE: bool = <HoldsFake as SerializeInner>::IS_ZERO_COPY;
 pub const ZC_VEC_FAKE: bool = <Vec<FakeZero> as SerializeInner>::IS_ZERO_COPY;
 pub const ZC_ARR_FAKE: bool = <[FakeZero; 2] as SerializeInner>::IS_ZERO_COPY;
 pub const ZC_ZNAMED_ARR: bool = <[ZNamed; 2] as SerializeInner>::IS_ZERO_COPY;
+
+// ---------------------------------------------------------------- parameter names / order variations (declaration order is not alphabetical)
+#[derive(Epserde, Debug, Clone, PartialEq)]
+pub struct PairTA<T, A> { pub first: T, pub second: A }
+#[derive(Epserde, Debug, Clone, PartialEq)]
+pub struct TripleKNVB<K, const N: usize, V, B>(pub K, pub [u8; N], pub V, pub B);
+#[derive(Epserde, Debug, Clone, PartialEq)]
+pub enum EZY<Z, Y> { First(Z), Second { y: Y, z: Z }, Third }
+#[derive(Epserde, Debug, Clone, PartialEq)]
+pub struct RevParams<Zeta, Mid, Alpha> { pub a: Alpha, pub m: Vec<Mid>, pub z: Zeta }
+pub type DPairTA = <PairTA<Vec<u32>, Vec<u8>> as DeserializeInner>::DeserType<'static>;
+pub type DTripleKNVB = <TripleKNVB<Vec<u64>, 2, Vec<u16>, String> as DeserializeInner>::DeserType<'static>;
+pub type DEZY = <EZY<Vec<u32>, String> as DeserializeInner>::DeserType<'static>;
+pub type DRevParams = <RevParams<Vec<u8>, u16, String> as DeserializeInner>::DeserType<'static>;
+pub type SPairTA = <PairTA<&'static [u32], Vec<u8>> as SerializeInner>::SerType;
+pub type SRevParams = <RevParams<&'static [u8], u16, String> as SerializeInner>::SerType;
